@@ -76,9 +76,11 @@ ReorderSome == \E g \in GroupsOf(cls) : \E t \in Dom(cls, g) : Reorder(g, t)
 SetSome     == \E g \in GroupsOf(cls) : \E t \in Dom(cls, g) : \E w \in BOOLEAN : MutateSet(g, t, w)
 MoveSome    == \E w \in BOOLEAN : MutateMove(w)
 FlatSome    == \E w \in BOOLEAN : MutateFlat(w)
+MutateRaw(name, w) == IsRaw(cls, name, val) /\ Mutate("raw", name, val, w, 0)
+RawSome     == \E name \in RawNames(cls) : \E w \in BOOLEAN : MutateRaw(name, w)
 AdvSome     == \E st \in {"v1", "v2"} : \E ar \in AdvArgs : \E n \in AdvLengths : \E w \in BOOLEAN : MutateAdv(st, ar, n, w)
 UpdSome     == \E p \in {"v1", "v2", "v3"} : \E sg \in {"d", "v1", "v2"} : \E w \in BOOLEAN : MutateUpd(p, sg, w)
-Next == PerturbSome \/ ReorderSome \/ SetSome \/ MoveSome \/ FlatSome \/ AdvSome \/ UpdSome
+Next == PerturbSome \/ ReorderSome \/ SetSome \/ MoveSome \/ FlatSome \/ AdvSome \/ UpdSome \/ RawSome
 Spec == Init /\ [][Next]_vars
 
 (* ---- the laws, on every explored node / edge ---- *)
@@ -95,7 +97,7 @@ InvThree       == /\ Expected3(cls, par, val) \in {"T", "F", "EITHER"}
                   /\ Expected3(cls, par, val) = Expected3(cls, val, par)
 (* history: descriptors before / after the mutator, and what the object answers with *)
 Before   == Desc(par, MotBefore(mk))
-After    == DescA(val, MotAfter(mk), IF mk = "adv" THEN AdvMark(par, nn) ELSE <<>>)
+After    == DescA(val, MotAfter(mk), IF mk = "adv" THEN AdvMark(par, nn) ELSE IF mk = "raw" THEN <<"raw", grp>> ELSE <<>>)
 ImplKey  == IF ckey = <<>> THEN DescKey(After) ELSE ckey[1]
 InvMutate  == kind = "mutate" => /\ ~ExpectedEqD(cls, Before, After)         \* the mutator changed something ...
                                  /\ ExpectedEqD(cls, After, After)
@@ -119,6 +121,8 @@ ASSUME PrintT(<<"MOTION", ToJson(MotRec)>>)
 SetRec == [c \in Classes |-> [g \in GroupsOf(c) |->
              {<<pr[1], pr[2], SetName(c, g, pr[1], pr[2])>> : pr \in SetPairs(c, g)}]]
 ASSUME PrintT(<<"SETTERS", ToJson(SetRec)>>)
+RawRec == [c \in Classes |-> {<<r[2], r[3], r[4]>> : r \in {q \in RawMut : q[1] = c}}]
+ASSUME PrintT(<<"RAW", ToJson(RawRec)>>)
 Emit == PrintT(<<"CASE", ToJson([cls |-> cls, x |-> par, y |-> val, kind |-> kind, grp |-> grp, seed |-> seed,
                                  depth |-> depth, mk |-> mk, warm |-> IF warm THEN 1 ELSE 0, n |-> nn])>>)
 ==============================================================================
